@@ -416,7 +416,8 @@ def check_level_getters(res, facts):
 # ---------------------------------------------------------------------------------------
 # C18
 
-def check_routing(res, facts):
+def check_routing(res, facts, only_other=False):
+    """only_other: just the 'unsupported controller numbers change nothing' obligations (they also belong to C06)"""
     rxf = Rx(facts)
     where = where_of(facts, RX + '::parse')
     n_inst = 0
@@ -443,6 +444,8 @@ def check_routing(res, facts):
             n = int(lo)
             seen_cc.add(n)
             field, kind = CC_TABLE[n]
+            if only_other:
+                continue
             if kind == 'scale':
                 got = post.get(field)
                 ok = ch <= {field} and isinstance(got, Num) and got.term == val.scale(Fr(1, 127))
@@ -483,6 +486,9 @@ def check_routing(res, facts):
                    'unlisted controller changes %s (table numbers not excluded on this path: %s)' % (sorted(ch), excluded), where,
                    key='R-ROUTE:cc-other')
             n_inst += 1
+    if only_other:
+        res.floor('cc_other_paths', n_inst, 1)
+        return n_inst
     missing = sorted(set(CC_TABLE) - seen_cc)
     res.ob('R-ROUTE', 'dispatch covers the documented controller numbers', not missing, 'no dispatch arm for controller(s) %s' % missing, where)
     res.floor('cc_arms', len(seen_cc), 9)
